@@ -10,7 +10,14 @@ import (
 )
 
 type arg struct {
-	S uint64 `json:"size"`
+	S   uint64 `json:"size"`
+	Cfg int    `json:"cfg,omitempty"` // bit0 DisableMarshalTextUnit, bit1 DisableMarshalJSONStringForm, bit2 DisableMarshalJSONObjectForm: the renderings of C13 do not depend on them
+}
+
+func setup(a arg) {
+	size.DisableMarshalTextUnit = a.Cfg&1 != 0
+	size.DisableMarshalJSONStringForm = a.Cfg&2 != 0
+	size.DisableMarshalJSONObjectForm = a.Cfg&4 != 0
 }
 
 func reset() {
@@ -95,7 +102,7 @@ func main() {
 		"non-trivial = value is shortened to a unit above B or has more than three digits", func(r *mc.Run) {
 		r.Reset = reset
 		reset()
-		p := mc.NewProbe(r, "render", nil, probe)
+		p := mc.NewProbe(r, "render", setup, probe)
 		r.Assume("reference: math/big division for the maximal 1024^k divisor (k<=6), right-to-left digit grouping")
 		r.Assume("values outside the stated alphabet are not covered; coverage argument: the formatter's control flow depends only on (number of stripped 10-bit groups, digit count), both of which are covered in every feasible combination")
 		ph := mc.NewProbe(r, "history2", nil, probeHist)
@@ -131,7 +138,7 @@ func main() {
 					w.Outcome("unit " + u)
 					w.Outcome(fmt.Sprintf("digits%%3=%d", len(oracle.Decimal(v))%3))
 				}
-				p.Do(w, arg{vals[i]})
+				p.Do(w, arg{S: vals[i]})
 			})
 			r.Serial(func(w *mc.W) {
 				for _, x := range vals {
@@ -140,7 +147,19 @@ func main() {
 				}
 			})
 		})
-		r.Sample("value", arg{123456 << 30})
-		r.Sample("value", arg{15 << 60})
+		r.Sample("value", arg{S: 123456 << 30})
+		r.Sample("value", arg{S: 15 << 60})
+		small := oracle.SizeValues(1<<12, 50)
+		for cfg := 1; cfg < 8; cfg++ {
+			cfg := cfg
+			r.Phase(fmt.Sprintf("marshal switches cfg=%d (DisableMarshalTextUnit/JSONStringForm/JSONObjectForm): %d values, all renderings are unaffected by them", cfg, len(small)), "complete over the reduced value alphabet", func() {
+				setup(arg{Cfg: cfg})
+				r.Parallel(int64(len(small)), 256, func(w *mc.W, i int64) {
+					w.Point()
+					p.Do(w, arg{S: small[i], Cfg: cfg})
+				})
+				reset()
+			})
+		}
 	})
 }
